@@ -36,10 +36,29 @@ Definition enc_recv (r : recv_out) : list Z :=
   ++ (match rx_last (r_ctx r) with Some o => 1 :: enc_object o | None => [0] end)
   ++ [Z.of_nat (length (r_sigs r))] ++ flat_map enc_object (r_sigs r).
 
+(* a case starting with 300 is a history of two frames on ONE driver context: the first frame (exactly
+   8 data bytes) is received and forgotten, what is printed is what the second one did *)
+Definition ucase2_of (l : list Z) : option (frame * ucase) :=
+  match l with
+  | 300 :: k :: da :: sa :: id1 :: r =>
+      if Z.of_nat (length r) <? 8 then None else
+      match ucase_of (k :: da :: sa :: skipn 8 r) with
+      | Some c => Some ({| f_id := id1; f_data := firstn 8 r |}, c)
+      | None => None end
+  | _ => None
+  end.
+Definition unit_model2 (f1 : frame) (c : ucase) : outcome recv_out :=
+  if Z.of_nat (length (f_data (uc_frame c))) =? 8
+  then Ok (unit_recv (uc_kind c) (uc_u c) (r_ctx (unit_recv (uc_kind c) (uc_u c) ctx0 f1)) (uc_frame c)) else Panic.
+
 (* a case starting with 200 is a raw can_frame pushed through the real socket path
    (CANSocket::recv + ControlNetwork::recv): the 0xFF normalisation half of C06, shared with C17 *)
 Definition units_run (l : list Z) : list Z :=
-  match l with 200 :: rest => C17_io.c17_run rest | _ =>
+  match l with 200 :: rest => C17_io.c17_run rest
+  | 300 :: _ => match ucase2_of l with
+                | Some (f1, c) => match unit_model2 f1 c with Ok r => enc_recv r | Panic => panic_obs end
+                | None => bad_case end
+  | _ =>
   match ucase_of l with
   | Some c => match unit_model c with Ok r => enc_recv r | Panic => panic_obs end
   | None => bad_case
@@ -100,8 +119,18 @@ Definition dec_recv (l : list Z) (c : ucase) : option (outcome recv_out) :=
   | _ => None
   end.
 
-Definition units_check (spec : ucase -> outcome recv_out -> bool) (l o : list Z) : bool :=
-  match l with 200 :: rest => C17_io.c17_check rest o | _ =>
+Definition units_check (hist : bool) (spec : ucase -> outcome recv_out -> bool) (l o : list Z) : bool :=
+  match l with 200 :: rest => C17_io.c17_check rest o
+  | 300 :: _ =>
+      (* the predicate is about the second frame alone, whatever came first (hist = false: the predicate
+         speaks of the context's counters, which a history has already moved - not applied) *)
+      negb hist ||
+      match ucase2_of l with
+      | Some (_, c) => match dec_recv o c with
+                       | Some ob => implb (ucase_wf c) (spec c ob)
+                       | None => false end
+      | None => false end
+  | _ =>
   match ucase_of l with
   | Some c => match dec_recv o c with
               | Some ob => implb (ucase_wf c) (spec c ob)
@@ -109,12 +138,16 @@ Definition units_check (spec : ucase -> outcome recv_out -> bool) (l o : list Z)
   | None => false
   end end.
 
-Definition c06_check := units_check c06_spec_ok.
-Definition c11_check := units_check c11_spec_ok.
-Definition c12_check := units_check c12_spec_ok.
+Definition c06_check := units_check true c06_spec_ok.
+Definition c11_check := units_check false c11_spec_ok.
+Definition c12_check := units_check true c12_spec_ok.
 
 Definition units_nontriv (l o : list Z) : bool :=
-  match l with 200 :: _ => true | _ =>
+  match l with 200 :: _ => true
+  | 300 :: _ => match ucase2_of l with
+                | Some (f1, c) => ucase_wf c && (id_sa (f_id (uc_frame c)) =? u_da (uc_u c)) && (id_sa (f_id f1) =? u_da (uc_u c))
+                | None => false end
+  | _ =>
   match ucase_of l with
   | Some c => ucase_wf c && (id_sa (f_id (uc_frame c)) =? u_da (uc_u c))
   | None => false end end.
